@@ -40,10 +40,15 @@ Init == /\ cfg \in CfgSet /\ sF = InitState /\ sU = InitState /\ sG = InitState 
 
 FrameIn(s, q, i) == [k |-> "frame", src |-> s, seq |-> q, fc |-> i, len |-> FLen, chunk |-> Chunk(s, q, FLen, i, "none")]
 
+\* (frames of the proprietary PGN "Q" - one definition, no fallback - are explored for decoders without PGN and
+\*  manufacturer lists: an ignored frame of a PGN must not change what later frames of that PGN decode to)
 Inputs ==
   {[k |-> "single", pgn |-> p, src |-> s, tok |-> <<p, s>>] : p \in {"A", "B", "P1", "P2"}, s \in Srcs}
   \cup {[k |-> "claim", src |-> s, name |-> nm] : s \in Srcs, nm \in {1, 2, 3}}
   \cup {[k |-> "unknown", src |-> s] : s \in Srcs} \cup {[k |-> "bad"]}
+  \cup (IF cfg.mode = "none" /\ cfg.mfrMode = "none"
+        THEN {[k |-> "single", pgn |-> "Q1", src |-> s, tok |-> <<"Q1", s>>] : s \in Srcs} \cup {[k |-> "nomatch", src |-> s] : s \in Srcs}
+        ELSE {})
 
 Feed(in) ==
   LET rF == Step(cfg, sF, in, window)
@@ -93,7 +98,7 @@ Isolation == \A s \in Srcs : IdentOf(sF, s) = lastClaim[s]
 Returned == (ev.k = "single" /\ Permitted(cfg, ev.pgn) /\ MfrPermitted(cfg, lastClaim[ev.src])
                /\ ~(cfg.netmap /\ window /\ lastClaim[ev.src] = 0)) => outF.some
 
-BadInputsHarmless == ev.k \in {"bad", "unknown", "other", "window"} => (sF = prevF /\ ~outF.some)
+BadInputsHarmless == ev.k \in {"bad", "unknown", "nomatch", "other", "window"} => (sF = prevF /\ ~outF.some)
 NoCrossTalk == ev.k = "other" => sF = prevF
 \* a complete in-order message with a fresh sequence counter is returned by the unfiltered twin whatever preceded it
 FreshMessageReturned ==
